@@ -152,6 +152,10 @@ func c05ScenarioSlow(tail []string, slow time.Duration) *explore.Scenario {
 			if !pilot {
 				for _, verb := range []string{"JOIN", "353", "NICK", "MODE", "TOPIC", "PART", "KICK", "QUIT", "352", "311", "324", "332", "671"} {
 					c.HandleFunc(verb, rec("fg"))
+					if slow > 0 {
+						// a second foreground handler, registered later, that returns at once: the slow one outlasts it
+						c.HandleFunc(verb, rec("fg2"))
+					}
 					c.HandleBG(verb, rec("bg"))
 				}
 			}
@@ -204,17 +208,21 @@ func c05ScenarioSlow(tail []string, slow time.Duration) *explore.Scenario {
 		seenFG := map[int]int{}
 		seenBG := map[int]int{}
 		seenLate := map[int]int{}
+		seenFG2 := map[int]int{}
 		for _, r := range o.Log("ev") {
 			sp := strings.SplitN(r, " ", 3)
 			var k int
 			fmt.Sscan(sp[1], &k)
 			v := strings.Split(sp[2], " ;; ")
 			switch sp[0] {
-			case "fg", "fg-late":
-				if sp[0] == "fg" {
+			case "fg", "fg-late", "fg2":
+				switch sp[0] {
+				case "fg":
 					seenFG[k]++
-				} else {
+				case "fg-late":
 					seenLate[k]++
+				default:
+					seenFG2[k]++
 				}
 				for q := range v {
 					if v[q] != expected[k][q] {
@@ -263,6 +271,9 @@ func c05ScenarioSlow(tail []string, slow time.Duration) *explore.Scenario {
 			}
 		}
 		for k := range lines {
+			if slow > 0 && seenFG2[k] != 1 {
+				fs = append(fs, explore.Finding{Oracle: "delivery-count", Msg: fmt.Sprintf("the second foreground handler of line %d ran %d times, expected 1", k, seenFG2[k])})
+			}
 			if slow > 0 && seenLate[k] != 1 {
 				fs = append(fs, explore.Finding{Oracle: "delivery-count", Msg: fmt.Sprintf("the slow foreground handler of line %d finished %d times, expected 1", k, seenLate[k])})
 			}
@@ -278,7 +289,7 @@ func c05ScenarioSlow(tail []string, slow time.Duration) *explore.Scenario {
 func init() {
 	Register(&Prop{
 		ID:   "C05",
-		Rule: "tracked sessions = own JOIN + NAMES followed by 1-3 state-changing lines from {other JOIN, NICK (other, own), MODE +o, MODE +nk, TOPIC, PART, KICK of the client, QUIT, WHO reply, second own JOIN, WHOIS reply (311), channel mode reply (324), topic reply (332), 671}; a foreground and a background user handler on every verb record a vector (four sessions also with foreground handlers that take five virtual minutes and look again before returning) of single tracker queries over the universe; every execution within the deviation budgets; expected vectors come from a sequential pilot run of the same lines with quiescence after each; distinct = distinct canonical observation per session",
+		Rule: "tracked sessions = own JOIN + NAMES followed by 1-3 state-changing lines from {other JOIN, NICK (other, own), MODE +o, MODE +nk, TOPIC, PART, KICK of the client, QUIT, WHO reply, second own JOIN, WHOIS reply (311), channel mode reply (324), topic reply (332), 671}; a foreground and a background user handler on every verb record a vector (four sessions also with a foreground handler that takes five virtual minutes and looks again before returning, next to a second, later registered one that returns at once) of single tracker queries over the universe; every execution within the deviation budgets; expected vectors come from a sequential pilot run of the same lines with quiescence after each; distinct = distinct canonical observation per session",
 		Assumptions: []string{
 			"interleavings at synchronisation/channel/socket granularity (DESIGN.md 3.8)",
 			"each recorded vector component is one atomic tracker call; background handlers are judged per component (some state at or after their line)",
